@@ -20,7 +20,7 @@ type poolGen struct {
 
 func newPoolGen(r *core.Rand, world int) *poolGen {
 	s := &scenario{world: world, src: "stub", minW: 0, maxW: 4000000 - 4000, prioSize: 0, minFree: 1000}
-	s.now = worldT0 + spacing(world)*int64(worldBlocks) + 1200
+	s.now = worldT0 + spacing(world)*int64(blocksOf(world)) + 1200
 	pg := &poolGen{s: s, w: getWorld(world), r: r, used: map[int]bool{}, fpks: map[int64]bool{}}
 	s.addr = r.Bool()
 	s.upd = r.Bool()
@@ -363,6 +363,11 @@ func (P) Generate(g *core.Gen) {
 	genConsensusWeight(g)
 	genSeqLocks(g)
 	genRetarget(g)
+	genReuse(g)
+	genRace(g)
+	genHetero(g)
+	genPositionSweep(g)
+	genLowHeight(g)
 }
 
 func genIndependent(g *core.Gen) {
@@ -1298,5 +1303,196 @@ func genTriggers(g *core.Gen) {
 		k := pg.pick(func(u utxo) bool { return pg.spendable(u) && u.kind == 'T' && !u.cb })
 		pg.add([]inRef{pg.ref(k)}, []byte{'T'}, 9000)
 		g.Case("trigger-f-c12-c", true, pg.finish(true).line())
+	}
+}
+
+// genReuse: op "reuse" (inputs are values): one policy / parameter / source /
+// address / cache set serves three sequential and three concurrent calls.
+func genReuse(g *core.Gen) {
+	for c := 0; c < g.N(15, 100); c++ {
+		pg := newPoolGen(g.R, c%2)
+		pg.s.reuse, pg.s.pb = true, true
+		pg.randomPool(poolOpts{n: 2 + g.R.Intn(8), childProb: 20 + g.R.Intn(50), anomalies: g.R.Bool(),
+			maxFee: 60000, zeroFeePct: 10, anyKind: true})
+		if g.R.Chance(1, 3) {
+			pg.s.prioSize = uint32(g.R.Pick(1500, 3000, 50000))
+		}
+		pg.s.minFree = g.R.Pick(0, 1000, 20000)
+		s := pg.finish(true)
+		g.Case("reuse", len(s.txs) > 0, s.line())
+	}
+}
+
+// genRace: the tip moves forward between the generator's snapshot of the best
+// chain and its final check (pinned through the source).
+func genRace(g *core.Gen) {
+	for c := 0; c < g.N(6, 40); c++ {
+		pg := newPoolGen(g.R, c%2)
+		pg.s.race, pg.s.pb = true, true
+		pg.randomPool(poolOpts{n: 1 + g.R.Intn(5), childProb: 30, maxFee: 60000, anyKind: true})
+		s := pg.finish(true)
+		g.Case("race-tip-moves", true, s.line())
+	}
+}
+
+// genHetero: every transaction differs from the others in every attribute
+// that can differ: version, lock kind, number and script classes of inputs
+// (all five classes inside one transaction), output classes, witness or not,
+// confirmed / unconfirmed parents, fee rate, priority, sigop weight.
+func genHetero(g *core.Gen) {
+	for c := 0; c < g.N(15, 100); c++ {
+		pg := newPoolGen(g.R, 0)
+		kindsIn := []byte{'T', 'K', 'W', 'S', 'H'}
+		// one transaction spending one output of every script class
+		var ins []inRef
+		for _, kd := range kindsIn {
+			k := pg.pick(func(u utxo) bool { return pg.spendable(u) && !u.cb && u.kind == kd })
+			if k >= 0 {
+				r := pg.ref(k)
+				r.hasSeq, r.seq = true, uint32(g.R.Pick(0xffffffff, 0xfffffffe, 0, 1, 1<<31|7))
+				ins = append(ins, r)
+			}
+		}
+		g.R.Fork() // keep the stream position independent of the shuffle below
+		for i := len(ins) - 1; i > 0; i-- {
+			j := g.R.Intn(i + 1)
+			ins[i], ins[j] = ins[j], ins[i]
+		}
+		j0 := pg.add(ins, []byte{'K', 'W', 'S', 'H', 'T', 'M', 'R'}, g.R.Range(20000, 90000))
+		pg.s.txs[j0].ver = 2
+		pg.s.txs[j0].allMax = false
+		for _, r := range ins {
+			if !(r.seq == 0xffffffff) {
+				pg.s.txs[j0].allMax = false
+			}
+		}
+		// children of its outputs, each of a different shape
+		vers := []int32{1, 2, 2, 1}
+		for i := 0; i < 4; i++ {
+			extra := pg.pick(func(u utxo) bool { return pg.spendable(u) && !u.cb && u.kind == kindsIn[(i+c)%5] })
+			cins := []inRef{{kind: 'p', k: j0, idx: i}}
+			if extra >= 0 && i%2 == 0 {
+				cins = append(cins, pg.ref(extra))
+			}
+			cj := pg.add(cins, pg.randKinds(1+i%3), g.R.Range(0, 50000))
+			pg.s.txs[cj].ver = vers[i]
+			if i == 1 {
+				pg.s.txs[cj].lockKind, pg.s.txs[cj].lock, pg.s.txs[cj].allMax = 'H', int64(pg.s.nextH)-1, false
+			}
+			if i == 3 {
+				pg.s.txs[cj].lockKind, pg.s.txs[cj].lock, pg.s.txs[cj].allMax = 'T', pg.s.mtp-1, false
+			}
+		}
+		pg.randomPool(poolOpts{n: g.R.Intn(4), childProb: 30, maxFee: 60000, zeroFeePct: 20, anyKind: true})
+		s := pg.finish(true)
+		permute(s, g.R)
+		if g.R.Chance(1, 3) {
+			s.prioSize = uint32(g.R.Pick(2000, 5000, 50000))
+		}
+		g.Case("hetero", true, s.line())
+	}
+}
+
+// genPositionSweep: one violating transaction among valid ones, at the first,
+// a middle and the last position of the source list, and with the highest, a
+// middle and the lowest fee rate.
+func genPositionSweep(g *core.Gen) {
+	kinds := []string{"nonfinal", "unknown-in", "bad-script", "immature", "double-spend", "coinbase", "dup-input", "overspend"}
+	c := 0
+	for _, kind := range kinds {
+		for pos := 0; pos < 3; pos++ {
+			c++
+			if !g.Thorough() && (c+int(g.Seed))%2 == 0 {
+				continue
+			}
+			pg := newPoolGen(g.R, 0)
+			n := 5
+			for i := 0; i < n; i++ {
+				k := pg.pick(func(u utxo) bool { return pg.spendable(u) && !u.cb && (u.kind == 'T' || u.kind == 'K' || u.kind == 'S') })
+				pg.add([]inRef{pg.ref(k)}, pg.randKinds(2), g.R.Range(5000, 60000))
+			}
+			k := pg.pick(func(u utxo) bool { return pg.spendable(u) && !u.cb && u.kind == 'T' })
+			r := pg.ref(k)
+			var j int
+			switch kind {
+			case "nonfinal":
+				j = pg.add([]inRef{r}, []byte{'T'}, 30000)
+				pg.s.txs[j].lockKind, pg.s.txs[j].lock, pg.s.txs[j].allMax = 'H', int64(pg.s.nextH), false
+			case "unknown-in":
+				j = pg.add([]inRef{r, {kind: 'x', k: 7}}, []byte{'T'}, 30000)
+			case "bad-script":
+				r.bad = true
+				j = pg.add([]inRef{r}, []byte{'T'}, 30000)
+			case "immature":
+				kc := pg.pick(func(u utxo) bool { return u.cb && pg.s.available(u) && pg.s.nextH-u.height < worldMaturity })
+				j = pg.add([]inRef{r, pg.ref(kc)}, []byte{'T'}, 30000)
+			case "double-spend":
+				j = pg.add([]inRef{r, pg.s.txs[2].ins[0]}, []byte{'T'}, 30000)
+			case "coinbase":
+				j = pg.add([]inRef{{kind: 'c'}}, []byte{'T'}, 0)
+			case "dup-input":
+				j = pg.add([]inRef{r, r}, []byte{'T'}, 30000)
+			case "overspend":
+				j = pg.add([]inRef{r}, []byte{'T'}, 1000)
+				pg.s.txs[j].outs[0].amt += 5000
+				pg.s.txs[j].fee = 1000
+			}
+			s := pg.finish(true)
+			// fee-rate rank of the violating transaction: highest / middle / lowest
+			rank := (c / 3) % 3
+			fp := []int64{2000000, 250000, 1}[rank]
+			s.txs[j].fpk = fp
+			// position in the source list
+			last := len(s.txs) - 1
+			target := []int{0, last / 2, last}[pos]
+			moveTx(s, j, target)
+			g.Case("position-sweep", true, s.line())
+		}
+	}
+}
+
+// moveTx moves pool transaction `from` to index `to` (renaming pool references).
+func moveTx(s *scenario, from, to int) {
+	n := len(s.txs)
+	order := make([]int, 0, n) // order[new] = old
+	for i := 0; i < n; i++ {
+		if i != from {
+			order = append(order, i)
+		}
+	}
+	order = append(order[:to], append([]int{from}, order[to:]...)...)
+	newIdx := make([]int, n)
+	for ni, oi := range order {
+		newIdx[oi] = ni
+	}
+	out := make([]txSpec, n)
+	for ni, oi := range order {
+		t := s.txs[oi]
+		ins := make([]inRef, len(t.ins))
+		copy(ins, t.ins)
+		for k := range ins {
+			if ins[k].kind == 'p' {
+				ins[k].k = newIdx[ins[k].k]
+			}
+		}
+		t.ins = ins
+		out[ni] = t
+	}
+	s.txs = out
+}
+
+// genLowHeight: a short chain, so the generator builds coinbases for heights
+// 15..18, where the BIP34 height push changes from OP_15 / OP_16 to a one-byte
+// data push; extra nonces at the same encoding edges.
+func genLowHeight(g *core.Gen) {
+	for c := 0; c < g.N(8, 40); c++ {
+		pg := newPoolGen(g.R, 3)
+		pg.s.fwd = c % 4
+		pg.s.pb = true
+		pg.s.now += spacing(3) * int64(pg.s.fwd)
+		pg.s.en = extraNonces[g.R.Intn(len(extraNonces))]
+		pg.randomPool(poolOpts{n: g.R.Intn(5), childProb: 30, maxFee: 60000, anyKind: true})
+		s := pg.finish(true)
+		g.Case("low-height", true, s.line())
 	}
 }
